@@ -144,7 +144,10 @@ VALUE_KINDS = ["null", "true", "zero", "neg1", "big", "real", "name", "string", 
                "ref_stm0", "ref_stm1", "ref_stm2", "ref_dic0", "ref_dic1", "ref_dic2"]
 STRUCT_KINDS = ["remove", "duplicate"]
 STREAM_KINDS = ["s_empty", "s_cut14", "s_cut12", "s_cut34", "s_cut1", "s_flip0", "s_flip1", "s_flip2", "s_flip3", "s_flip4", "s_flip5",
-                "s_flip6", "s_flip7", "s_garbage", "s_len0", "s_lenshort", "s_lenlong"]
+                "s_flip6", "s_flip7", "s_garbage", "s_len0", "s_lenshort", "s_lenlong",
+                # the STORED payload (ciphertext in an encrypted document) cut short by a few bytes: the last cipher block
+                # becomes partial
+                "s_lencut1", "s_lencut5", "s_lencut8", "s_lencut15", "s_lencut16", "s_lencut17"]
 
 # token-level faults inside unfiltered text streams (page contents, form XObjects, Type3 glyph procedures, ToUnicode CMaps):
 # every token x {delete, duplicate, replace by 0 / name / string / empty array / empty dictionary}: operators that lose an
@@ -443,10 +446,20 @@ def apply_trailer_fault(doc: Doc, opts: Dict[str, Any], path: Tuple[Any, ...], k
     return data if state["ok"] else None
 
 
-def apply_stream_fault(doc: Doc, n: int, kind: str, rng: random.Random) -> Optional[Doc]:
+def apply_stream_fault(doc: Doc, n: int, kind: str, rng: random.Random, opts: Optional[Dict[str, Any]] = None) -> Optional[Doc]:
     d2 = copy.deepcopy(doc)
     st = d2.objs[n]
     data = st.data
+    if kind.startswith("s_lencut"):
+        enc = (opts or {}).get("encryptor")
+        stored = len(data)
+        if enc is not None and getattr(enc, "cfm", None) in ("AESV2", "AESV3"):
+            stored = 16 + (len(data) // 16 + 1) * 16     # IV + PKCS#5-padded blocks
+        k = int(kind[8:])
+        if stored - k < 1:
+            return None
+        st.d["Length"] = stored - k
+        return d2
     if kind == "s_empty":
         st.data = b""
     elif kind.startswith("s_cut"):
@@ -627,7 +640,7 @@ def make_case(doc: Doc, opts: Dict[str, Any], case: Tuple[str, Any, str], base: 
         d2 = apply_fault(doc, tuple(tuple(s) if isinstance(s, list) else s for s in site), kind)
         return build(d2, opts) if d2 is not None else None
     if fam == "stream":
-        d2 = apply_stream_fault(doc, site, kind, rng)
+        d2 = apply_stream_fault(doc, site, kind, rng, opts)
         if d2 is None:
             return None
         if kind.startswith("s_len"):
@@ -792,6 +805,8 @@ def case_stride(doc: Doc, case: Tuple[str, Any, str], stride: int, base: bytes =
         return 1                    # cuts that leave a half-read token: all of them, every run
     if fam == "bits" and site[1] < 8:
         return 1                    # header bits of LZW / RunLength / ASCII / CCITT payloads: all of them, every run
+    if fam == "stream" and kind.startswith("s_lencut"):
+        return min(stride, 2)
     if fam == "obj" and kind in ("string", "name"):
         parent, key = _container(doc, site)
         if isinstance(parent[key], (Name, bytes)):
